@@ -41,6 +41,25 @@ Calibration
 * The number of blocks per array is capped at 64 (3-d arrays cut into single cells gave cases of several seconds that
   hit the per-case watchdog on a loaded machine: inconclusive, never a verdict).
 
+Parameter audit (own random stream interleaved at fixed positions, `family` in the case, counters fam_<family> with floors):
+  axes     map_overlap(..., drop_axis=int / list / negative, new_axis=int / list) with trim=True: f = stencil, summed over the
+           dropped axes, length-1 axes inserted at the new positions; reference = f(padded whole array) trimmed on the kept axes.
+           A dropped axis has depth 0 (any chunking: the function is given that axis' blocks concatenated) or is one chunk.
+           Labels: a new axis beyond the input rank / with several axes behind it get ONE mechanism label each (PENDING: the
+           depth bookkeeping of map_overlap is wrong there); every other case keeps the detailed feature label.
+  multi    several inputs: the array of highest rank is NOT the first argument (per-array depth / boundary lists swapped with
+           it) and / or three arrays (third one shaped like the second, own chunking; align_arrays True / False)
+  deep     depth larger than the axis: the documented ValueError ("overlapping depth ... larger than your array", or the
+           allow_rechunk=False message) is counted `depth_gt_axis_refused`; a returned value must equal the reference
+           (np.pad pads beyond the axis length); any other exception is a violation
+  big      axes of 300-1000 cells, chunks > 255 elements next to chunks shorter than the depth, depths / windows up to 40
+  dtypes   overlap/trim identity for bool, complex128, datetime64[ns], float32, uint8, U2 (constants only where representable)
+  nd4      4-d arrays with pairwise different lengths
+  plain    depth=None / 0 (plain map_blocks), boundary argument omitted (default 'none'), meta= given
+  legacy   the deprecated signature map_overlap(x, func, depth, boundary, trim)
+* `trim_false` counts single-array calls only (two-array calls are always made with trim=True; they used to be counted and
+  labelled by their unused `trim` field).
+
 Sibling facet (vf/mon/siblings.py): every case is also built a second time with ONE result-relevant parameter changed
 (another depth or boundary of one axis (overlap: the two overlapped arrays; map_overlap: the results), another window).
 The two lazily built collections must not share output keys unless their stand-alone values are equal (label
@@ -85,6 +104,11 @@ FLOORS = {"quick": {"evaluations": 2300, "distinct_nontrivial": 1700,
 # quick floor x (thorough / quick stream size) x 0.6.  A run in which the facet never executed is INCONCLUSIVE.
 FLOORS["quick"]["counters"].update({"siblings_built": 1900, "siblings_computed_together": 260, "siblings_with_different_values": 205})
 FLOORS["thorough"]["counters"].update({"siblings_built": 21000, "siblings_computed_together": 3000, "siblings_with_different_values": 2300})
+# parameter-audit families (own random stream): ~45 % of the quick counts on the unchanged tree; thorough = quick x 16 (stream ratio 18.75)
+_FAMF = {"fam_axes": 75, "fam_drop_axis": 48, "fam_new_axis": 65, "fam_multi": 52, "fam_big": 58, "fam_dtypes": 22, "fam_legacy": 19,
+         "fam_plain": 27, "fam_nd4": 24, "depth_gt_axis_refused": 35}
+FLOORS["quick"]["counters"].update(_FAMF)
+FLOORS["thorough"]["counters"].update({k: v * 16 for k, v in _FAMF.items()})
 EXHAUSTIVE_SPACE = ("all 32 chunkings of shape (6,) x depth {1,2} x boundary {none, periodic, reflect, nearest, constant} "
                     "for trim_internal(overlap(x)) and for map_overlap with the 3-point/5-point full-radius stencil; "
                     "all 16 chunkings of shape (5,) x window 1..5 for sliding_window_view")
@@ -103,6 +127,9 @@ PENDING = {
     "map:new_axis-before-several-axes:shape": "map_overlap shifts the per-axis depths upwards in ascending order: with two or more axes behind a new axis a depth is overwritten before it is moved, the result is not trimmed / trimmed on the wrong axis",
     "map:new_axis-before-several-axes:values": "same mechanism, the wrongly trimmed result happens to have the expected shape",
 }
+for _k in ("map:new_axis>=input-rank", "map:new_axis-before-several-axes"):
+    for _s in ("lazy-shape", "lazy-chunks"):
+        PENDING["%s:%s" % (_k, _s)] = "same mechanism, only the declared shape / chunks are trimmed on the wrong axis (boundary 'none')"
 BKINDS = ("none", "periodic", "reflect", "nearest", "const")
 PADMODE = {"periodic": "wrap", "reflect": "symmetric", "nearest": "edge"}
 
@@ -162,8 +189,8 @@ def _capped_chunks(rng, shape, cap=64):
         chunks[ax] = A.rand_comp(rng, shape[ax], "two")
 
 
-def _rand_overlap(rng, kind):
-    shape = _rand_shape(rng, minnd=2 if kind == "map2" and rng.random() < 0.5 else 1)
+def _rand_overlap(rng, kind, shape=None):
+    shape = shape or _rand_shape(rng, minnd=2 if kind == "map2" and rng.random() < 0.5 else 1)
     nd = len(shape)
     chunks = _capped_chunks(rng, shape)
     dtype = rng.choice(("int64", "int64", "float64", "int32"))
@@ -222,7 +249,7 @@ def _rand_overlap(rng, kind):
 
 
 # ---- parameter-audit families -----------------------------------------------------------------------------
-EXTRA = ("axes", "axes", "axes", "multi", "multi", "deep", "big", "big", "dtypes", "plain", "legacy")
+EXTRA = ("axes", "axes", "axes", "multi", "multi", "deep", "big", "big", "dtypes", "plain", "legacy", "nd4")
 
 
 def _long_comp(rng, n, small=0):
@@ -339,6 +366,11 @@ def _rand_extra(rng):
         case["boundary"] = fix
         if case["bform"] == "scalar" and not all(b == fix[0] for b in fix):
             case["bform"] = "tuple"
+        return case
+    if fam == "nd4":
+        # 4-d arrays with pairwise different lengths
+        case = _rand_overlap(rng, rng.choice(("ident", "map", "map")), shape=tuple(rng.sample((1, 2, 3, 4, 5), 4)))
+        case["family"] = "nd4"
         return case
     if fam == "plain":
         # depth=None / 0 (plain map_blocks), boundary argument omitted, meta= given
@@ -619,6 +651,8 @@ def _features(case):
         f.append({"nodepth": "depth=None|0", "noboundary": "boundary-omitted", "meta": "meta="}[case["sub"]])
     elif fam == "legacy":
         f.append("legacy-signature")
+    elif fam == "nd4":
+        f.append("4-d")
     return "&".join(f)
 
 
@@ -811,7 +845,7 @@ def _run_overlap(case, ctx):
             for n, on in (("fam_drop_axis", case["axes"]["drop"]), ("fam_new_axis", case["axes"]["new"])):
                 if on:
                     ctx.count(n)
-    if kind != "ident" and not case.get("trim", True):
+    if kind == "map" and not case.get("trim", True):        # (two-array calls are always made with the default trim=True)
         ctx.count("trim_false")
         kind_l = kind + "&trim=False"
     else:
